@@ -121,17 +121,22 @@ func Intersect(ctx *expr.Context, input system.Collection, args ...expr.Expressi
 	}
 	var result system.Collection
 	for _, i := range input {
-		for _, c := range argValues {
-			if checkEquality(i, c) {
-				v, _ := system.From(c)
-				result = append(result, v)
-			}
+		if !argValues.Contains(i) {
+			continue
+		}
+		// Keep the input's own item; primitives are reported as System values.
+		var item any = i
+		if v, err := system.From(i); err == nil {
+			item = v
+		}
+		if !result.Contains(item) {
+			result = append(result, item)
 		}
 	}
 	if len(result) == 0 {
 		return system.Collection{}, nil
 	}
-	return removeDuplicates(result), nil
+	return result, nil
 }
 
 // Exclude returns the set of elements that are not in the other collection.
